@@ -70,7 +70,9 @@ func fixBlock(from uintptr, block []byte, trampoline uintptr,
 			if l := copy(copyBlock, block); l != len(block) {
 				return nil, 0, errors.New("copy block array error")
 			}
-			fixedInsData := fixIns(ins, pos, copyBlock, blockSize, (uint64)(from), trampoline)
+			// the instruction lands at trampoline+len(fixedBlock), not trampoline+pos, once an earlier
+			// short branch has been widened: pass the accumulated growth on
+			fixedInsData := fixIns(ins, pos, copyBlock, blockSize, (uint64)(from), trampoline, len(fixedBlock)-pos)
 			fixedBlock = append(fixedBlock, fixedInsData...)
 
 			logger.Debugf("[%d]>[%d] 0x%x:\t%s\t\t%s\t\t%s", ins.Len, len(fixedInsData),
@@ -92,12 +94,14 @@ func fixBlock(from uintptr, block []byte, trampoline uintptr,
 		}
 	}
 
-	return fixedBlock, len(fixedBlock), nil
+	// the whole block was copied: the size in terms of the origin is pos, not the (possibly grown) copy
+	return fixedBlock, len(block), nil
 }
 
 // fixIns 替换单条指令的偏移地址
+// growth 此指令之前因短跳转扩展为长跳转而增加的字节数
 func fixIns(ins *x86asm.Inst, pos int, block []byte, blockSize int,
-	from uint64, trampoline uintptr) []byte {
+	from uint64, trampoline uintptr, growth int) []byte {
 	if ins.PCRelOff <= 0 {
 		// 不需要替换偏移地址
 		return block[pos : pos+ins.Len]
@@ -128,10 +132,15 @@ func fixIns(ins *x86asm.Inst, pos int, block []byte, blockSize int,
 		}
 
 		result := bytecode.EncodeAddress(block[pos:offset],
-			block[offset:offset+ins.PCRel], ins.PCRel, addr, (int)(from)-(int)(trampoline))
+			block[offset:offset+ins.PCRel], ins.PCRel, addr, (int)(from)-(int)(trampoline)-growth)
 		if len(result) > ins.PCRel {
 			return append(result, tail...)
 		}
+	} else if growth != 0 && addr < 0 {
+		// backward jump inside the copied block: the instructions in between have grown
+		result := bytecode.EncodeAddress(block[pos:offset],
+			block[offset:offset+ins.PCRel], ins.PCRel, addr, -growth)
+		return append(result, tail...)
 	} else {
 		if ins.Op.String() == bytecode.CallInsName {
 			logger.Debug((addr)+pos+ins.Len, blockSize, (addr)+pos+ins.Len)
